@@ -1,20 +1,23 @@
 import I18nVerif.Theorems.C16
 /-!
-# C16 — ticks are invisible
+# C16 — ticks are invisible (as long as no wire is due)
 
 `Op.tick` = one turn of the event loop: the executor runs until idle, i.e. every pending `Effect` / `RenderEffect` /
 isomorphic effect is polled (in the browser — `csr` / `hydrate` — this happens between any two event handlers; under
 plain `ssr` only the isomorphic effects exist).  Property C16 speaks of "the most recently set locale" and of
 sub-contexts that "never change each other's locale": neither mentions the event loop, so **where the ticks fall in an
-operation sequence must not matter**.  This file states that for the specification and for the model:
+operation sequence must not matter** — with the property's stated exception: a caller-wired initial-locale signal that
+was written (`Op.wireSet`) reaches its sub-context at the next tick (`Theorems/C16Wired.lean`).  So the statements below are
+about states / histories in which no wire is due (`Quiet`) and sequences that write no wire (`noWireSet`): sub-contexts,
+wired ones included, may be created anywhere.  This file states that for the specification and for the model:
 
 * `eraseTicks ops` — the sequence without its ticks; `dropTickObs ops obs` — the observations of the non-tick steps;
-* `C16_tick_observes_nothing` — a tick observes nothing and changes nothing (one step, model and spec);
-* `C16_ticks_invisible_model` — from **any** state: running `ops` and running `eraseTicks ops` end in the same state
+* `C16_tick_observes_nothing` — with no wire due, a tick observes nothing and changes nothing (one step, model and spec);
+* `C16_ticks_invisible_model` — from **any** quiet state: running `ops` and running `eraseTicks ops` end in the same state
   (hence the same final read-back and the same future) and the non-tick steps observe the same;
-* `C16_ticks_invisible_spec_hist` — the specification, from **any** history, even one that itself contains ticks: every
-  function of the history (`current`, `views`, `visible`, `memoStale`, `memoCache`, …) ignores them;
-* `C16_ticks_invisible` — for sequences run from scratch: two sequences that differ only by ticks (inserted anywhere, any
+* `C16_ticks_invisible_spec_hist` — the specification, from **any** history without wire writes, even one that itself contains
+  ticks: every function of the history (`current`, `views`, `visible`, `memoStale`, `memoCache`, `wires`, …) ignores them;
+* `C16_ticks_invisible` — for sequences (without wire writes) run from scratch: two sequences that differ only by ticks (inserted anywhere, any
   number) have the same model state, the same model observations and the same specified observations at the non-tick
   steps, and every tick itself observes `Obs.none`.
 
@@ -50,36 +53,183 @@ theorem eraseTicks_idem (ops : List Op) : eraseTicks (eraseTicks ops) = eraseTic
 theorem eraseTicks_append (a b : List Op) : eraseTicks (a ++ b) = eraseTicks a ++ eraseTicks b := by
   simp [eraseTicks]
 
-/-- **A tick observes nothing and changes nothing** — in the machine (any state) and in the specification (any history:
-    accepted, observation `none`, and no function of the history sees it). -/
-theorem C16_tick_observes_nothing (s : State) (h : Hist) :
+/-! ### no wire due -/
+
+/-- no wire is due: every caller-owned signal holds what the listener memo of its sub-context last evaluated to -/
+def Quiet (ws : List Wire) : Prop := ∀ w ∈ ws, w.val = w.seen
+
+instance (ws : List Wire) : Decidable (Quiet ws) := by unfold Quiet; infer_instance
+
+/-- the sequence never writes a wire (`W.set(..)` on a caller-owned initial-locale signal) -/
+def noWireSet (ops : List Op) : Bool := ops.all (fun op => match op with | .wireSet _ _ => false | _ => true)
+
+@[simp] theorem noWireSet_nil : noWireSet [] = true := rfl
+theorem noWireSet_cons (op : Op) (ops : List Op) :
+    noWireSet (op :: ops) = ((match op with | .wireSet _ _ => false | _ => true) && noWireSet ops) := by
+  simp [noWireSet]
+theorem noWireSet_tick (ops : List Op) : noWireSet (.tick :: ops) = noWireSet ops := by simp [noWireSet]
+theorem noWireSet_tail {op : Op} {ops : List Op} (h : noWireSet (op :: ops) = true) : noWireSet ops = true := by
+  rw [noWireSet_cons] at h; simp at h; exact h.2
+theorem noWireSet_head {op : Op} {ops : List Op} (h : noWireSet (op :: ops) = true) : ∀ i l, op ≠ .wireSet i l := by
+  intro i l e; subst e; simp [noWireSet] at h
+
+theorem noWireSet_erase (ops : List Op) : noWireSet (eraseTicks ops) = noWireSet ops := by
+  induction ops with
+  | nil => rfl
+  | cons op ops ih =>
+    by_cases ht : op = .tick
+    · subst ht; rw [eraseTicks_tick, noWireSet_tick, ih]
+    · rw [eraseTicks_cons ht, noWireSet_cons, noWireSet_cons, ih]
+
+theorem pending_quiet {ws : List Wire} (hq : Quiet ws) (c : Nat) : pending ws c = none := by
+  unfold pending
+  rw [List.findSome?_eq_none_iff]
+  intro w hw
+  simp [hq w hw]
+
+theorem quiet_map_seen (ws : List Wire) : Quiet (ws.map (fun w => { w with seen := w.val })) := by
+  intro w hw
+  simp only [List.mem_map] at hw
+  obtain ⟨w0, _, rfl⟩ := hw
+  rfl
+
+theorem map_seen_quiet {ws : List Wire} (hq : Quiet ws) : ws.map (fun w => { w with seen := w.val }) = ws := by
+  have : ∀ w ∈ ws, ({ w with seen := w.val } : Wire) = w := by
+    intro w hw
+    have := hq w hw
+    cases w; simp_all
+  rw [List.map_congr_left this, List.map_id']
+
+/-- with no wire due, the executor's turn leaves the machine alone -/
+theorem deliver_quiet {s : State} (hq : Quiet s.wires) : s.deliver = s := by
+  have h1 : s.cells.mapIdx (fun c l => (pending s.wires c).getD l) = s.cells := by
+    apply List.ext_getElem?
+    intro i
+    simp [List.getElem?_mapIdx, pending_quiet hq]
+  have h2 : s.memos.map (fun m =>
+      if ((s.views[m.view]?).bind (pending s.wires)).isSome then { m with dirty := true } else m) = s.memos := by
+    have : ∀ m ∈ s.memos, (if ((s.views[m.view]?).bind (pending s.wires)).isSome then { m with dirty := true } else m) = m := by
+      intro m _
+      have : (s.views[m.view]?).bind (pending s.wires) = none := by
+        cases s.views[m.view]? <;> simp [pending_quiet hq]
+      simp [this]
+    rw [List.map_congr_left this, List.map_id']
+  unfold State.deliver
+  rw [h1, h2, map_seen_quiet hq]
+
+/-- an operation other than a wire write keeps the machine quiet -/
+theorem quiet_step {s : State} (hq : Quiet s.wires) (op : Op) (hn : ∀ i l, op ≠ .wireSet i l) :
+    Quiet (step s op).1.wires := by
+  have happ : ∀ x : Locale, ∀ c, Quiet (s.wires ++ [{ ctx := c, val := x, seen := x }]) := by
+    intro x c w hw
+    simp only [List.mem_append, List.mem_singleton] at hw
+    rcases hw with hw | rfl
+    · exact hq w hw
+    · rfl
+  cases op with
+  | newRoot init => exact hq
+  | sub parent initial fallback =>
+    cases parent with
+    | none => exact hq
+    | some pv => cases hr : s.read pv <;> simpa [step, hr] using hq
+  | scope v => cases hv : s.views[v]? <;> simpa [step, hv] using hq
+  | set v l =>
+    simp only [step, State.write]
+    cases s.views[v]? with
+    | none => exact hq
+    | some c => by_cases hlt : c < s.cells.length <;> simpa [hlt] using hq
+  | setUntracked v l =>
+    simp only [step, State.write]
+    cases s.views[v]? with
+    | none => exact hq
+    | some c => by_cases hlt : c < s.cells.length <;> simpa [hlt] using hq
+  | get v => cases hr : s.read v <;> simpa [step, hr] using hq
+  | getUntracked v => cases hr : s.read v <;> simpa [step, hr] using hq
+  | makeClosure v => by_cases h : v < s.views.length <;> simpa [step, h] using hq
+  | callClosure i =>
+    cases hi : s.closures[i]? with
+    | none => simpa [step, hi] using hq
+    | some v => cases hr : s.read v <;> simpa [step, hi, hr] using hq
+  | makeMemo v => by_cases h : v < s.views.length <;> simpa [step, h] using hq
+  | readMemo i =>
+    cases hi : s.memos[i]? with
+    | none => simpa [step, hi] using hq
+    | some m =>
+      cases hd : m.dirty with
+      | true => cases hr : s.read m.view <;> simpa [step, hi, hd, hr] using hq
+      | false => cases hcache : m.cache <;> simpa [step, hi, hd, hcache] using hq
+  | provideRoot init => exact hq
+  | childOwner o => by_cases h : o < s.owners.length <;> simpa [step, h] using hq
+  | provider o initial fallback => by_cases h : o < s.owners.length <;> simpa [step, h] using hq
+  | useCtx o =>
+    by_cases h : o < s.owners.length
+    · cases hl : s.lookup o <;> simpa [step, h, hl] using hq
+    · simpa [step, h] using hq
+  | tick => simp only [step, deliver_quiet hq]; exact hq
+  | subWired parent w =>
+    cases parent with
+    | none => simpa [step] using happ w _
+    | some pv =>
+      cases hr : s.read pv with
+      | none => simpa [step, hr] using hq
+      | some x => simpa [step, hr] using happ w _
+  | wireSet i l => exact absurd rfl (hn i l)
+
+/-- a history without wire writes leaves every wire quiet -/
+theorem wires_quiet (h : Hist) (hn : noWireSet h = true) : Quiet (Spec.wires h) := by
+  induction h with
+  | nil => intro w hw; simp [Spec.wires] at hw
+  | cons op h ih =>
+    have ih := ih (noWireSet_tail hn)
+    cases op with
+    | tick => exact quiet_map_seen _
+    | subWired parent x =>
+      intro w hw
+      simp only [Spec.wires, List.mem_append, List.mem_singleton] at hw
+      rcases hw with hw | rfl
+      · exact ih w hw
+      · rfl
+    | wireSet i l => exact absurd rfl (noWireSet_head hn i l)
+    | _ => simpa [Spec.wires] using ih
+
+/-- **A tick observes nothing and changes nothing while no wire is due** — in the machine (any quiet state) and in the
+    specification (any history in which no wire is due: accepted, observation `none`, and no function of the history
+    sees it). -/
+theorem C16_tick_observes_nothing (s : State) (h : Hist) (hs : Quiet s.wires) (hh : Quiet (Spec.wires h)) :
     step s .tick = (s, .none) ∧ obsAt h .tick = .none ∧
     (∀ c, current (.tick :: h) c = current h c) ∧ Spec.views (.tick :: h) = Spec.views h ∧
     (∀ o, visible (.tick :: h) o = visible h o) ∧
     (∀ i, memoStale (.tick :: h) i = memoStale h i) ∧ (∀ i, memoCache (.tick :: h) i = memoCache h i) ∧
-    (∀ i, memoRead (.tick :: h) i = memoRead h i) ∧ (∀ op, obsAt (.tick :: h) op = obsAt h op) := by
+    (∀ i, memoRead (.tick :: h) i = memoRead h i) ∧ Spec.wires (.tick :: h) = Spec.wires h ∧
+    (∀ op, obsAt (.tick :: h) op = obsAt h op) := by
+  have hdue : ∀ c, due h c = none := fun c => pending_quiet hh c
   have hv : Spec.views (.tick :: h) = Spec.views h := rfl
   have hc : Spec.closures (.tick :: h) = Spec.closures h := rfl
   have hm : memoViews (.tick :: h) = memoViews h := rfl
-  have hcur : ∀ c, current (.tick :: h) c = current h c := fun _ => rfl
+  have hcur : ∀ c, current (.tick :: h) c = current h c := fun c => by simp [current, hdue]
   have hvl : ∀ v, viewLocale (.tick :: h) v = viewLocale h v := fun v => by simp [viewLocale, hv, hcur]
-  have hst : ∀ i, memoStale (.tick :: h) i = memoStale h i := fun _ => rfl
+  have hst : ∀ i, memoStale (.tick :: h) i = memoStale h i := fun i => by
+    have : (memoCtx h i).bind (due h) = none := by cases memoCtx h i <;> simp [hdue]
+    simp [memoStale, this]
   have hca : ∀ i, memoCache (.tick :: h) i = memoCache h i := fun _ => rfl
   have hmr : ∀ i, memoRead (.tick :: h) i = memoRead h i := fun i => by simp [memoRead, hm, hst, hca, hvl]
   have hno : nOwners (.tick :: h) = nOwners h := rfl
   have hnc : nCtx (.tick :: h) = nCtx h := rfl
   have hvis : ∀ o, visible (.tick :: h) o = visible h o := fun _ => rfl
-  refine ⟨rfl, rfl, hcur, hv, hvis, hst, hca, hmr, ?_⟩
+  have hw : Spec.wires (.tick :: h) = Spec.wires h := map_seen_quiet hh
+  refine ⟨by simp [step, deliver_quiet hs], rfl, hcur, hv, hvis, hst, hca, hmr, hw, ?_⟩
   intro op
   cases op with
   | sub parent initial fallback => cases parent <;> simp [obsAt, hv, hvl]
-  | _ => simp [obsAt, hv, hc, hm, hvl, hmr, hno, hnc, hvis]
+  | subWired parent x => cases parent <;> simp [obsAt, hv, hvl, hw]
+  | _ => simp [obsAt, hv, hc, hm, hvl, hmr, hno, hnc, hvis, hw]
 
 /-! ### the machine -/
 
-/-- **Ticks are invisible to the machine**, from any state: dropping the ticks of a sequence changes neither the final
-    state (cells, views, closures, memo caches and dirty flags, owner tree) nor what the other steps observe. -/
-theorem C16_ticks_invisible_model (s : State) (ops : List Op) :
+/-- **Ticks are invisible to the machine**, from any state in which no wire is due, for every sequence that writes no
+    wire: dropping the ticks of the sequence changes neither the final state (cells, views, closures, memo caches and
+    dirty flags, owner tree, wires) nor what the other steps observe. -/
+theorem C16_ticks_invisible_model (s : State) (ops : List Op) (hq : Quiet s.wires) (hn : noWireSet ops = true) :
     (run s (eraseTicks ops)).1 = (run s ops).1 ∧
     (run s (eraseTicks ops)).2 = dropTickObs ops (run s ops).2 := by
   induction ops generalizing s with
@@ -87,14 +237,14 @@ theorem C16_ticks_invisible_model (s : State) (ops : List Op) :
   | cons op ops ih =>
     by_cases ht : op = .tick
     · subst ht
-      have := ih s
-      simp only [eraseTicks_tick, run, step, dropTickObs, if_true]
+      have := ih s hq (noWireSet_tail hn)
+      simp only [eraseTicks_tick, run, step, deliver_quiet hq, dropTickObs, if_true]
       exact this
-    · have := ih (step s op).1
+    · have := ih (step s op).1 (quiet_step hq op (noWireSet_head hn)) (noWireSet_tail hn)
       simp only [eraseTicks_cons ht, run, dropTickObs, ht, if_false]
       exact ⟨this.1, by rw [this.2]⟩
 
-/-- every tick of a sequence observes `Obs.none` -/
+/-- every tick of a sequence observes `Obs.none` (whether it delivers a wire or not) -/
 theorem tickObs_run (s : State) (ops : List Op) : ∀ o ∈ tickObs ops (run s ops).2, o = Obs.none := by
   induction ops generalizing s with
   | nil => intro o ho; simp [tickObs] at ho
@@ -105,7 +255,7 @@ theorem tickObs_run (s : State) (ops : List Op) : ∀ o ∈ tickObs ops (run s o
       simp only [run, step, tickObs, if_true, List.mem_cons] at ho
       rcases ho with rfl | ho
       · rfl
-      · exact ih s o ho
+      · exact ih _ o ho
     · simp only [run, tickObs, ht, if_false] at ho
       exact ih _ o ho
 
@@ -147,53 +297,79 @@ theorem memoViews_erase (h : Hist) : memoViews (eraseTicks h) = memoViews h := b
   | nil => rfl
   | cons op h ih => cases op <;> simp_all [eraseTicks, memoViews]
 
-theorem current_erase (h : Hist) (c : Nat) : current (eraseTicks h) c = current h c := by
+/-- without wire writes, the wires do not see the ticks of the history (each stays at its creation value) -/
+theorem wires_erase (h : Hist) (hn : noWireSet h = true) : Spec.wires (eraseTicks h) = Spec.wires h := by
+  induction h with
+  | nil => rfl
+  | cons op h ih =>
+    have ih := ih (noWireSet_tail hn)
+    have hq := wires_quiet h (noWireSet_tail hn)
+    have h1 := nCtx_erase h
+    cases op with
+    | tick => rw [eraseTicks_tick, ih]; exact (map_seen_quiet hq).symm
+    | wireSet i l => exact absurd rfl (noWireSet_head hn i l)
+    | _ => simp_all [eraseTicks, Spec.wires]
+
+theorem due_none (h : Hist) (hn : noWireSet h = true) (c : Nat) : due h c = none :=
+  pending_quiet (wires_quiet h hn) c
+
+theorem current_erase (h : Hist) (hn : noWireSet h = true) (c : Nat) : current (eraseTicks h) c = current h c := by
   induction h generalizing c with
   | nil => rfl
   | cons op h ih =>
+    have ih := ih (noWireSet_tail hn)
     have h1 := nCtx_erase h
     have h2 := fun o => visible_erase h o
     have h3 := views_erase h
+    have h4 := due_none h (noWireSet_tail hn)
     cases op <;> simp_all [eraseTicks, current]
 
-theorem viewLocale_erase (h : Hist) (v : Nat) : viewLocale (eraseTicks h) v = viewLocale h v := by
-  simp [viewLocale, views_erase, current_erase]
+theorem viewLocale_erase (h : Hist) (hn : noWireSet h = true) (v : Nat) : viewLocale (eraseTicks h) v = viewLocale h v := by
+  simp [viewLocale, views_erase, current_erase h hn]
 
 theorem memoCtx_erase (h : Hist) (i : Nat) : memoCtx (eraseTicks h) i = memoCtx h i := by
   simp [memoCtx, views_erase, memoViews_erase]
 
-theorem memoStale_erase (h : Hist) (i : Nat) : memoStale (eraseTicks h) i = memoStale h i := by
+theorem memoStale_erase (h : Hist) (hn : noWireSet h = true) (i : Nat) : memoStale (eraseTicks h) i = memoStale h i := by
   induction h generalizing i with
   | nil => rfl
   | cons op h ih =>
+    have ih := ih (noWireSet_tail hn)
     have h1 := memoViews_erase h
     have h2 := fun i => memoCtx_erase h i
     have h3 := views_erase h
-    cases op <;> simp_all [eraseTicks, memoStale]
+    have h4 : ∀ i, (memoCtx h i).bind (due h) = none := fun i => by
+      cases memoCtx h i <;> simp [due_none h (noWireSet_tail hn)]
+    cases op with
+    | tick => rw [eraseTicks_tick, ih]; simp [memoStale, h4 i]
+    | _ => simp_all [eraseTicks, memoStale]
 
-theorem memoCache_erase (h : Hist) (i : Nat) : memoCache (eraseTicks h) i = memoCache h i := by
+theorem memoCache_erase (h : Hist) (hn : noWireSet h = true) (i : Nat) : memoCache (eraseTicks h) i = memoCache h i := by
   induction h generalizing i with
   | nil => rfl
   | cons op h ih =>
+    have ih := ih (noWireSet_tail hn)
     have h1 := memoViews_erase h
     have h2 := fun i => memoCtx_erase h i
-    have h3 := fun i => memoStale_erase h i
-    have h4 := fun c => current_erase h c
+    have h3 := fun i => memoStale_erase h (noWireSet_tail hn) i
+    have h4 := fun c => current_erase h (noWireSet_tail hn) c
     cases op <;> simp_all [eraseTicks, memoCache]
 
-theorem memoRead_erase (h : Hist) (i : Nat) : memoRead (eraseTicks h) i = memoRead h i := by
-  simp [memoRead, memoViews_erase, memoStale_erase, memoCache_erase, viewLocale_erase]
+theorem memoRead_erase (h : Hist) (hn : noWireSet h = true) (i : Nat) : memoRead (eraseTicks h) i = memoRead h i := by
+  simp [memoRead, memoViews_erase, memoStale_erase h hn, memoCache_erase h hn, viewLocale_erase h hn]
 
 /-- what an operation must observe does not depend on the ticks of the history -/
-theorem obsAt_erase (h : Hist) (op : Op) : obsAt (eraseTicks h) op = obsAt h op := by
+theorem obsAt_erase (h : Hist) (hn : noWireSet h = true) (op : Op) : obsAt (eraseTicks h) op = obsAt h op := by
   cases op with
-  | sub parent initial fallback => cases parent <;> simp [obsAt, views_erase, viewLocale_erase]
-  | _ => simp [obsAt, views_erase, closures_erase, memoViews_erase, viewLocale_erase, memoRead_erase, nOwners_erase,
-      nCtx_erase, visible_erase]
+  | sub parent initial fallback => cases parent <;> simp [obsAt, views_erase, viewLocale_erase h hn]
+  | subWired parent w => cases parent <;> simp [obsAt, views_erase, viewLocale_erase h hn, wires_erase h hn]
+  | _ => simp [obsAt, views_erase, closures_erase, memoViews_erase, viewLocale_erase h hn, memoRead_erase h hn, nOwners_erase,
+      nCtx_erase, visible_erase, wires_erase h hn]
 
-/-- **Ticks are invisible to the specification**, from any history `h` (which may itself contain ticks): the
-    expected observations of the non-tick steps of `ops` are those of `eraseTicks ops` after `eraseTicks h`. -/
-theorem C16_ticks_invisible_spec_hist (h : Hist) (ops : List Op) :
+/-- **Ticks are invisible to the specification**, from any history `h` without wire writes (which may itself contain
+    ticks), for every sequence that writes no wire: the expected observations of the non-tick steps of `ops` are those of
+    `eraseTicks ops` after `eraseTicks h`. -/
+theorem C16_ticks_invisible_spec_hist (h : Hist) (ops : List Op) (hh : noWireSet h = true) (hn : noWireSet ops = true) :
     observe (eraseTicks h) (eraseTicks ops) = dropTickObs ops (observe h ops) := by
   induction ops generalizing h with
   | nil => rfl
@@ -202,64 +378,78 @@ theorem C16_ticks_invisible_spec_hist (h : Hist) (ops : List Op) :
     · subst ht
       have hobs : obsAt h .tick = .none := rfl
       simp only [eraseTicks_tick, observe, dropTickObs, if_true, hobs, reduceCtorEq, if_false]
-      rw [← ih (.tick :: h), eraseTicks_tick]
-    · simp only [eraseTicks_cons ht, observe, dropTickObs, ht, if_false, obsAt_erase]
+      rw [← ih (.tick :: h) (by rw [noWireSet_tick]; exact hh) (noWireSet_tail hn), eraseTicks_tick]
+    · simp only [eraseTicks_cons ht, observe, dropTickObs, ht, if_false, obsAt_erase h hh]
       congr 1
       by_cases hb : obsAt h op = .bad
-      · simp only [hb, if_true]; exact ih h
+      · simp only [hb, if_true]; exact ih h hh (noWireSet_tail hn)
       · simp only [hb, if_false]
-        rw [← ih (op :: h), eraseTicks_cons ht]
+        have hh' : noWireSet (op :: h) = true := by
+          rw [noWireSet_cons] at hn ⊢
+          simp only [Bool.and_eq_true] at hn ⊢
+          exact ⟨hn.1, hh⟩
+        rw [← ih (op :: h) hh' (noWireSet_tail hn), eraseTicks_cons ht]
 
 /-- the specification, from scratch -/
-theorem C16_ticks_invisible_spec (ops : List Op) :
+theorem C16_ticks_invisible_spec (ops : List Op) (hn : noWireSet ops = true) :
     observations (eraseTicks ops) = dropTickObs ops (observations ops) :=
-  C16_ticks_invisible_spec_hist [] ops
+  C16_ticks_invisible_spec_hist [] ops rfl hn
 
 /-! ### the property -/
 
-/-- **Ticks are invisible** (C16 under a running event loop).  Take two operation sequences that differ only by ticks —
-    `tick`s inserted or removed at arbitrary positions, in arbitrary number (`eraseTicks ops = eraseTicks ops'`; in
-    particular `ops' = eraseTicks ops`).  Run from scratch:
+/-- **Ticks are invisible** (C16 under a running event loop).  Take two operation sequences that write no wire and differ
+    only by ticks — `tick`s inserted or removed at arbitrary positions, in arbitrary number
+    (`eraseTicks ops = eraseTicks ops'`; in particular `ops' = eraseTicks ops`).  Run from scratch:
     1. the machine ends in the same state (so every view reads back the same and every continuation behaves the same);
     2. the machine observes the same at the non-tick steps;
     3. the specification expects the same at the non-tick steps;
     4. every tick observes nothing, in the machine and in the specification.
     Hence "the context shows the last locale set" and "sub-contexts are isolated", proved for tick-free sequences in
-    `Theorems/C16.lean`, hold verbatim with ticks anywhere. -/
-theorem C16_ticks_invisible (ops ops' : List Op) (he : eraseTicks ops = eraseTicks ops') :
+    `Theorems/C16.lean`, hold verbatim with ticks anywhere.  (With wire writes a tick is the moment the written value
+    arrives: `Theorems/C16Wired.lean`.) -/
+theorem C16_ticks_invisible (ops ops' : List Op) (he : eraseTicks ops = eraseTicks ops') (hn : noWireSet ops = true) :
     (run State.empty ops).1 = (run State.empty ops').1 ∧
     dropTickObs ops (run State.empty ops).2 = dropTickObs ops' (run State.empty ops').2 ∧
     dropTickObs ops (observations ops) = dropTickObs ops' (observations ops') ∧
     (∀ o ∈ tickObs ops (run State.empty ops).2, o = Obs.none) ∧
     (∀ o ∈ tickObs ops (observations ops), o = Obs.none) := by
-  have m := C16_ticks_invisible_model State.empty ops
-  have m' := C16_ticks_invisible_model State.empty ops'
+  have hn' : noWireSet ops' = true := by rw [← noWireSet_erase, ← he, noWireSet_erase]; exact hn
+  have hq : Quiet State.empty.wires := fun w hw => by simp [State.empty] at hw
+  have m := C16_ticks_invisible_model State.empty ops hq hn
+  have m' := C16_ticks_invisible_model State.empty ops' hq hn'
   refine ⟨?_, ?_, ?_, tickObs_run _ ops, ?_⟩
   · rw [← m.1, ← m'.1, he]
   · rw [← m.2, ← m'.2, he]
-  · rw [← C16_ticks_invisible_spec ops, ← C16_ticks_invisible_spec ops', he]
+  · rw [← C16_ticks_invisible_spec ops hn, ← C16_ticks_invisible_spec ops' hn', he]
   · rw [← C16_refinement ops]; exact tickObs_run _ ops
 
 /-- the form used by the correspondence check: with ticks erased, same final state and same observations -/
-theorem C16_ticks_invisible_erase (ops : List Op) :
+theorem C16_ticks_invisible_erase (ops : List Op) (hn : noWireSet ops = true) :
     (run State.empty (eraseTicks ops)).1 = (run State.empty ops).1 ∧
     (run State.empty (eraseTicks ops)).2 = dropTickObs ops (run State.empty ops).2 ∧
     observations (eraseTicks ops) = dropTickObs ops (observations ops) :=
-  ⟨(C16_ticks_invisible_model _ ops).1, (C16_ticks_invisible_model _ ops).2, C16_ticks_invisible_spec ops⟩
+  have hq : Quiet State.empty.wires := fun w hw => by simp [State.empty] at hw
+  ⟨(C16_ticks_invisible_model _ ops hq hn).1, (C16_ticks_invisible_model _ ops hq hn).2, C16_ticks_invisible_spec ops hn⟩
 
 /-- the two regressions this guards against, as sequences: `create; set; tick; get` must read the locale set, and
-    `create sub; set parent; tick; get sub` must read the sub-context's own locale — with and without the ticks -/
+    `create sub; set parent; tick; get sub` must read the sub-context's own locale — with and without the ticks; a wired
+    sub-context whose signal is never written is created on the way -/
 private def demoTicks : List Op :=
   [.newRoot 0, .tick, .set 0 2, .tick, .tick, .get 0, .sub (some 0) none 0, .set 0 1, .tick, .get 1, .get 0,
-   .makeMemo 1, .readMemo 0, .tick, .set 1 3, .tick, .readMemo 0, .get 0]
+   .makeMemo 1, .readMemo 0, .tick, .set 1 3, .tick, .readMemo 0, .get 0, .subWired (some 1) 4, .tick, .set 1 0, .tick, .get 2]
 
 example : (run State.empty demoTicks).2 =
     [.view 0, .none, .none, .none, .none, .locale 2, .view 1, .none, .none, .locale 2, .locale 1,
-     .memo 0, .locale 2, .none, .none, .none, .locale 3, .locale 1] := by decide
+     .memo 0, .locale 2, .none, .none, .none, .locale 3, .locale 1, .wired 2 0, .none, .none, .none, .locale 4] := by decide
 example : eraseTicks demoTicks =
     [.newRoot 0, .set 0 2, .get 0, .sub (some 0) none 0, .set 0 1, .get 1, .get 0,
-     .makeMemo 1, .readMemo 0, .set 1 3, .readMemo 0, .get 0] := by decide
+     .makeMemo 1, .readMemo 0, .set 1 3, .readMemo 0, .get 0, .subWired (some 1) 4, .set 1 0, .get 2] := by decide
+example : noWireSet demoTicks = true := by decide
 example : dropTickObs demoTicks (observations demoTicks) = observations (eraseTicks demoTicks) := by decide
 example : observations demoTicks = (run State.empty demoTicks).2 := by decide
+
+/-- the hypothesis is needed: with a wire write, the tick is what makes the written value arrive -/
+example : (run State.empty [.subWired none 0, .wireSet 0 2, .tick, .get 0]).2 = [.wired 0 0, .none, .none, .locale 2] ∧
+    (run State.empty [.subWired none 0, .wireSet 0 2, .get 0]).2 = [.wired 0 0, .none, .locale 0] := by decide
 
 end I18nVerif.Context
